@@ -830,7 +830,18 @@ def judge_history(ctx, g, gm, h, model, orig_labels, coords, W):
     # ---- own markers of the current table, asked in a random order
     perm = g.permutation(len(mc))
     ok, out = guarded(ctx, S("interp_genpos"), icls, coords, lambda: gm.interp_genpos(mc[perm], mp[perm]), WH)
-    if ok:
+    # a non-linear (quadratic / cubic) spline through knots of wildly uneven spacing reproduces its own knots only to
+    # eps x (largest/smallest spacing)^2: with a ratio above 1e3 that exceeds the tolerance for purely numerical reasons
+    wellcond = True
+    if not linear:
+        for ch_ in numpy.unique(mc):
+            dp_ = numpy.diff(numpy.sort(numpy.asarray(mp, dtype=float)[mc == ch_]))
+            dp_ = dp_[dp_ > 0]
+            if len(dp_) and dp_.max() / dp_.min() > 1e3:
+                wellcond = False
+    if ok and not wellcond:
+        ctx.sumnote("own-marker answers of a non-linear spline on knots with spacing ratio > 1e3 (ill-conditioned, not judged)")
+    if ok and wellcond:
         check("C11.history.own", O.agree(out, mg[perm], gscale)[0], S("interp_genpos"),
                   "interpolation at own markers == stored positions", kcls, witness=dict(WH, got=out, expected=mg[perm]), coords=coords)
     # ---- queries: current chromosomes (inside / own / outside), never-present labels and every chromosome that has left
@@ -859,7 +870,7 @@ def judge_history(ctx, g, gm, h, model, orig_labels, coords, W):
     check("C11.history.absent", bool(numpy.all(numpy.isnan(qg[ab]))) and bool(numpy.all(numpy.isfinite(qg[~ab]))),
               S("build_spline"), "position is NaN exactly on chromosomes absent from the current table", icls,
               witness=dict(WQ, got=qg, kind=kind.tolist(), chromosomes_that_left=gone), coords=coords)
-    known = (kind == "own") | ((kind == "inside") & linear & congruent)
+    known = ((kind == "own") & wellcond) | ((kind == "inside") & linear & congruent)
     if known.any():
         check("C11.history.linear", O.agree(qg[known], exp[known], gscale)[0], S("build_spline"),
                   "own markers / linear between the current flanking markers", kcls,
